@@ -134,6 +134,55 @@ def run(tier):
         rep.check(not mism, "override-agreement", nm, "StrInput::%s disagrees with the provided body for: %s" % (nm, ", ".join(mism[:6])), site=ov.span,
                   detail={"cases": 257, "disagreements": len(mism)})
     rep.floor("character predicates used by the single-character tests", len(preds_used), 5)
+    # (iii') multi-character tests (document markers, "can a plain scalar go on here"): override vs provided body on every text of up to
+    # four characters over the characters either body distinguishes (plus a letter and a two-byte character), by constant folding
+    import itertools
+    LETTERS = [0x2D, 0x2E, 0x20, 0x09, 0x0A, 0x0D, 0x3A, 0x2C, 0x5B, 0x7D, 0x61, 0xE9]
+    MULTI = {"next_is_document_indicator": (4, [()]), "next_is_document_start": (4, [()]), "next_is_document_end": (4, [()]),
+             "next_can_be_plain_scalar": (2, [(0,), (1,)])}
+    blankz = set(fold.predicate_table(F, "saphyr_parser::char_traits::is_blank_or_breakz"))
+    for nm, (width, extra_args) in MULTI.items():
+        ov = F.fns.get(STR + nm)
+        df = F.fns.get(INPUT + "::" + nm)
+        if ov is None or df is None:
+            rep.ok("override-agreement", nm, "no override" if ov is None else "no default")
+            continue
+        alpha = LETTERS if width <= 2 else [0x2D, 0x2E, 0x20, 0x0A, 0x0D, 0x61, 0xE9]
+        mism, ncase = [], 0
+        try:
+            for n in range(0, width + 1):
+                for text in itertools.product(alpha, repeat=n):
+                    if nm == "next_can_be_plain_scalar" and (n == 0 or text[0] in blankz):
+                        continue      # precondition of both bodies (C01 plain-scalar-precondition): the cursor is on a content character
+                    raw = "".join(map(chr, text)).encode("utf-8")
+                    for xa in extra_args:
+                        ncase += 1
+                        model = ("struct", {"buffer": ("strbuf", raw)})
+                        hooks_o = {
+                            "str::is_empty": lambda a: int(len(a[0][1]) == 0),
+                            "str::len": lambda a: len(a[0][1]),
+                            "str::as_bytes": lambda a: ("bytes", tuple(a[0][1])),
+                        }
+                        got = fold.Folder(F, hooks_o).call(ov.key, [("ref", model)] + list(xa))
+                        at = lambda k, text=text: text[k] if k < len(text) else 0
+                        hooks_d = {
+                            INPUT + "::peek": lambda a, at=at: at(0),
+                            INPUT + "::peek_nth": lambda a, at=at: at(a[1]),
+                            INPUT + "::buflen": lambda a: 4,
+                            INPUT + "::next_char_is": lambda a, at=at: int(at(0) == a[1]),
+                            INPUT + "::nth_char_is": lambda a, at=at: int(at(a[1]) == a[2]),
+                            INPUT + "::next_2_are": lambda a, at=at: int((at(0), at(1)) == (a[1], a[2])),
+                            INPUT + "::next_3_are": lambda a, at=at: int((at(0), at(1), at(2)) == (a[1], a[2], a[3])),
+                        }
+                        want = fold.Folder(F, hooks_d).call(df.key, [("ref", ("struct", {}))] + list(xa))
+                        if got != want:
+                            mism.append("%r%s: override %s, provided body %s" % ("".join(map(chr, text)), " (in flow)" if xa == (1,) else "", bool(got), bool(want)))
+        except (fold.Unsupported, fold.Diverged) as ex:
+            rep.incomplete("cannot fold %s: %s" % (nm, ex), ov.span)
+            continue
+        rep.check(not mism, "override-agreement", nm, "StrInput::%s disagrees with the provided body for: %s" % (nm, "; ".join(mism[:4])), site=ov.span,
+                  detail={"cases": ncase, "disagreements": len(mism)})
+        rep.extra.setdefault("multi_char_agreement", {})[nm] = ncase
     # the predicates involved are ASCII-only
     for pk_ in sorted(preds_used):
         tab = fold.predicate_table(F, pk_, alphabet=list(range(256)) + fold.ALPHABET)
